@@ -11,9 +11,9 @@ import (
 	"verif/gen/zipgen"
 )
 
-const subProduct = "zip-based (jar, apk, xap, vsix): canonical base archive x ONE hazard at a time (thorough: also every unordered pair of archive-level hazards) " +
+const subProduct = "zip-based (jar, apk, xap, vsix): canonical base archive x ONE hazard at a time (thorough: also every unordered pair of hazards; a pair's failure that one component shows alone is attributed to that component) " +
 	"+ for xap/apk the gen/zipgen single-member feature family (every member feature value x every archive feature, one at a time); " +
-	"pe-coff: {PE32,PE32+} x bss section {no,yes} x unaligned last section {no,yes} x overlay {0,1,7,8,9} x header gap {0,1} (full product); " +
+	"pe-coff: {PE32,PE32+} x bss section {no,yes} x unaligned last section {no,yes} x overlay {0,1,7,8,9} x header gap {0,1} (full product; thorough: + NumberOfRvaAndSizes {4,5,6} x overlay {0,1}); " +
 	"msi: gen/cfbgen families layout, names, storage, dircount (quick) + sizes(1 ordered, 2 multiset) (thorough: sizes(2,3), fat-full); " +
 	"cab: folders {1,2} x reserve area {absent, 0, 20, 24 bytes} x file sizes {0,1,odd,32768+1}; " +
 	"scripts: 7 extensions x line end {LF, CRLF, CR} x final line end {yes,no} x BOM {none, UTF-8, UTF-16LE}; " +
@@ -47,9 +47,7 @@ func allShapes(thorough bool) []shape {
 		if thorough {
 			var arch []shapes.ZipHazard
 			for _, h := range hz {
-				switch h.Name {
-				case "data-descriptors", "prefixed-zip-offsets-adjusted", "data-between-members", "data-before-central-directory",
-					"empty-member-stored-descriptor", "empty-member-first", "duplicate-names", "directory-entries", "archive-comment", "all-deflated":
+				if h.AppliesTo(typ) && h.Name != "canonical" {
 					arch = append(arch, h)
 				}
 			}
@@ -99,6 +97,16 @@ func allShapes(thorough bool) []shape {
 						}
 						add(shape{ID: spec.ID(), Type: "pe-coff", PType: "pe-coff", Ext: ".exe", Hazard: hz, Source: "generated", Rounds: rounds, Build: spec.Build})
 					}
+				}
+			}
+		}
+	}
+	if thorough {
+		for _, pe64 := range []bool{false, true} {
+			for _, dirs := range []int{4, 5, 6} {
+				for _, ov := range []int{0, 1} {
+					spec := shapes.PESpec{PE64: pe64, Overlay: ov, Dirs: dirs}
+					add(shape{ID: spec.ID() + fmt.Sprintf("/dirs=%d", dirs), Type: "pe-coff", PType: "pe-coff", Ext: ".exe", Hazard: fmt.Sprintf("data-directories-%d", dirs), Source: "generated", Build: spec.Build})
 				}
 			}
 		}
@@ -254,7 +262,7 @@ func allShapes(thorough bool) []shape {
 
 	// ---- Apple ----
 	slim := shapes.Fixture("slimfile.app/dummyapp")
-	add(shape{ID: "macho/fixture:slimfile", Type: "mach-o", PType: "macho", Ext: ".macho", Hazard: "fixture-signed-by-codesign", Source: "fixture:slimfile.app/dummyapp", Rounds: 2, Build: fixedBytes(slim)})
+	add(shape{ID: "macho/fixture:slimfile", Type: "mach-o", PType: "macho", Ext: ".macho", Hazard: "fixture", Source: "fixture:slimfile.app/dummyapp", Rounds: 2, Build: fixedBytes(slim)})
 	if stripped, err := shapes.MachOStrip(slim); err == nil {
 		add(shape{ID: "macho/fixture:slimfile/stripped", Type: "mach-o", PType: "macho", Ext: ".macho", Hazard: "unsigned", Source: "derived:slimfile.app/dummyapp", Rounds: 2, Build: fixedBytes(stripped)})
 	}
